@@ -52,7 +52,19 @@ def run(ctx):
     n, flagged = ctx.validate_cases("VHostTrace", "VHost.Trace.cfg", ctx.path("trace.ndjson"), timeout=1800,
                                     subst={"Deviations": devs})
     ctx.evaluations = n
-    # 5. coverage
+    # 5. verdicts
+    for r in flagged:
+        line = trace[r["l"] - 1]
+        if r["verdict"] == "finding":
+            ctx.finding(r["tag"], line)
+        else:
+            vlib.write_ndjson(ctx.path("replay.ndjson"), [line])
+            ctx.violation(ctx.path("replay.ndjson"),
+                          "%s: case %s: storage calls path=%s vhost=%s, model of the code says path=%s vhost=%s" %
+                          (r["verdict"], json.dumps({k: line[k] for k in ("kind", "bucket", "key", "method", "hostform")}),
+                           json.dumps(r["got_path"]), json.dumps(r["got_vhost"]),
+                           json.dumps(r["expected_path"]), json.dumps(r["expected_vhost"])))
+    # 6. coverage
     api = [r for r in trace if r["kind"] == "api"]
     web = [r for r in trace if r["kind"] != "api"]
     ops = lambda cs: [c[0] for c in cs]
@@ -74,7 +86,7 @@ def run(ctx):
         cov["api_bucket_" + b] = sum(1 for r in api if r["bucket"] == b and r["calls_vhost"] and r["calls_vhost"][0][1] == b)
     ctx.extra["branch_counts"] = cov
     dead = [k for k, v in cov.items() if v == 0]
-    if dead:
+    if dead and not ctx.violations:       # a violation already explains a dead branch; it must not become exit 2
         raise vlib.Infra("branches never exercised on the real code: %s" % ", ".join(dead))
     ctx.extra["distinct_nontrivial"] = len({json.dumps([r["kind"], r["bucket"], r["key"], r["method"], r["hostform"]])
                                             for r in trace if r["calls_path"] or r["calls_vhost"]})
@@ -82,13 +94,20 @@ def run(ctx):
     ctx.sample(api[0])
     ctx.sample(api[len(api) // 2])
     ctx.sample(web[0])
-    # 6. binding self-test: corrupted observations must be flagged
-    v1 = next(r for r in api if r["calls_path"] and r["calls_path"] == r["calls_vhost"] and r["calls_path"][0][2])
+    # 7. binding self-test: corrupted observations must be flagged
+    bad_lines = {r["l"] for r in flagged}
+    good_api = [r for i, r in enumerate(trace) if r["kind"] == "api" and i + 1 not in bad_lines]
+    good_web = [r for i, r in enumerate(trace) if r["kind"] != "api" and i + 1 not in bad_lines]
+    v1 = next((r for r in good_api if r["calls_path"] and r["calls_path"] == r["calls_vhost"] and r["calls_path"][0][2]), None)
+    v3 = next((r for r in good_web if r["method"] == "PUT"), None)
+    if v1 is None or v3 is None:
+        if ctx.violations:
+            return "violations found; binding self-test skipped for lack of accepted lines"
+        raise vlib.Infra("self-test: no suitable recorded lines")
     bad1 = json.loads(json.dumps(v1))
     bad1["calls_vhost"][0][2] = bad1["calls_vhost"][0][2] + ["c"]          # vhost acted on another key
     bad2 = json.loads(json.dumps(v1))
     bad2["calls_path"][0][1] = "hyphen" if v1["bucket"] != "hyphen" else "plain"   # path style acted on another bucket
-    v3 = next(r for r in web if r["method"] == "PUT")
     bad3 = json.loads(json.dumps(v3))
     bad3["calls_vhost"] = [["PutObject", v3["bucket"], ["c"]]]            # a website PUT reached the storage
     vlib.write_ndjson(ctx.path("selftest.ndjson"), [v1, bad1, bad2, v3, bad3])
@@ -97,18 +116,6 @@ def run(ctx):
     ctx.traces, ctx.events = tr_before, ev_before
     if sorted(r["l"] for r in sfl if r["verdict"] == "mismatch") != [2, 3, 5]:
         raise vlib.Infra("binding self-test failed: corrupted lines not flagged: %s" % json.dumps(sfl)[:800])
-    # 7. verdicts
-    for r in flagged:
-        line = trace[r["l"] - 1]
-        if r["verdict"] == "finding":
-            ctx.finding(r["tag"], line)
-        else:
-            vlib.write_ndjson(ctx.path("replay.ndjson"), [line])
-            ctx.violation(ctx.path("replay.ndjson"),
-                          "%s: case %s: storage calls path=%s vhost=%s, model of the code says path=%s vhost=%s" %
-                          (r["verdict"], json.dumps({k: line[k] for k in ("kind", "bucket", "key", "method", "hostform")}),
-                           json.dumps(r["got_path"]), json.dumps(r["got_vhost"]),
-                           json.dumps(r["expected_path"]), json.dumps(r["expected_vhost"])))
     ctx.assumptions += [
         "key tokens c,sl,e2f,e25,sp,u are concretised as x,/,%2F,%25,%20,%C3%A9; bucket classes as vhplain, vh-b-1, vh.dot.ted",
         "observation = (method, bucket, key) of every storage.Storage call made while the request was served "
